@@ -51,20 +51,42 @@ THEOREMS = [
         "roiCenterDist2_eq", "roiCenterDist2_symm", "roiCenterDist2_shift_invariant",
         "interOK_rect", "rectInter_symm", "rectInter_self", "rectInter_disjoint",
         "roiIoU_bounds", "roiIoU_symm", "roiIoU_self", "roiIoU_disjoint", "roiIoU_shift_invariant", "roiIoUCode_ok",
-        "iou_bounds", "iou_symm", "iou_self_eq_one", "iou_disjoint_eq_zero", "iouCode_ok",
+        "iou_bounds", "iouCode_ok",
         "heightInter_bounds", "heightInter_symm", "heightInter_self", "heightInter_disjoint",
-        "iou3d_le_iouBev", "iou3d_bounds", "iou3d_symm", "iou3d_self_eq_one", "iou3d_disjoint_eq_zero",
-        "areaBev_eq", "areaBev_move", "boxIou_move_invariant",
+        "iou3d_le_iouBev", "iou3d_bounds", "iou3d_self_eq_one", "iou3d_disjoint_eq_zero",
+        "areaBev_eq", "areaBev_move",
         "footprint_move", "planeDist2_nonneg", "planeDist2_self_eq_zero", "planeDist2_rot_about_ego_invariant",
         "planeDist2_eq_mean_sq_nearest_side", "planeDist2_nearest_is_side",
         "clip_interArea_nonneg", "interArea_rigid_invariant", "interArea_footprint_self", "interArea_footprint_nested",
         "clipIou_self_eq_one", "clipIou_rigid_invariant",
+        # strengthening (audit Part 1 item 4): the area contract for ROTATED boxes.
+        #  exact clipper `interArea`: subject bound, separated boxes (either box's edge), contract given the one
+        #  equation I(P,Q) = I(Q,P) that compare() evaluates exactly on every pair
+        "clip_interArea_le_subject", "interOK_clip_partial", "interOK_clip_of_symm", "clip_interArea_separated",
+        "clipIou_separated_eq_zero", "clipIou_bounds_of_symm",
+        #  symmetrised exact area `interSym` (= interArea on every checked pair): the WHOLE contract by theorem
+        "interOK_sym", "interSym_symm", "interSym_eq_clip_of_symm", "interSym_footprint_self",
+        "interSym_rigid_invariant", "interSym_separated",
+        "symIou_bounds", "symIou3d_bounds", "symIouCode_ok", "symIou_symm", "symIou_self_eq_one",
+        "symIou_separated_eq_zero", "symIou_rigid_invariant",
     ]
 ]
+# De-registered (still in Properties/C06.lean, used as lemmas): their content was a hypothesis or `0/x = 0` -
+#   iou_symm (assumes a symmetric `inter`; kept also as iou_symm_of_inter_symm), iou3d_symm (one I on both sides; kept also
+#   as iou3d_symm_of_inter_symm), iou_self_eq_one (assumes inter p p = area p), iou_disjoint_eq_zero (iou 0 A1 A2 = 0, no
+#   boxes), boxIou_move_invariant (assumes I' = I).  Replaced by symIou_symm, symIou_self_eq_one / clipIou_self_eq_one,
+#   symIou_separated_eq_zero / clipIou_separated_eq_zero, symIou_rigid_invariant / clipIou_rigid_invariant.
 TRUSTED = [
     "shapely/GEOS `Polygon.intersection(...).area` is an EXTERNAL CONTRACT (0 <= I <= min(A1,A2), symmetric, I(P,P)=A(P), "
-    "0 for disjoint interiors, rigid-motion invariant); every theorem about IoU is stated for ANY I meeting it; on every run "
-    "shapely's area is cross-checked (1e-9) against the exact rational Sutherland-Hodgman clipper of the Lean model",
+    "0 for disjoint interiors, rigid-motion invariant); on every run shapely's area is cross-checked (1e-9) against the exact "
+    "rational Sutherland-Hodgman clipper `interArea` of the Lean model.  PROVED for that clipper on two rotated boxes: 0 <= I, "
+    "I <= A(subject) (any subject in convex position, any clip polygon), I(P,P)=A(P), nested, rigid invariance, I = 0 for "
+    "separated boxes (separating edge of either box, touching allowed).  NOT proved: I(P,Q) = I(Q,P) for the clipper (two "
+    "clipping orders give different vertex lists of one region), hence I <= A(clip) only through that equation: compare() "
+    "evaluates I(P,Q) = I(Q,P) EXACTLY on every generated pair (driver fields inter / inter_swapped / inter_sym), and the "
+    "whole contract is a theorem for interSym = min(I(P,Q), I(Q,P)), which equals interArea on every such pair",
+    "that `interArea` is the TRUE area of the intersection of two rotated rectangles in general position (correctness of "
+    "the clipper beyond the contract clauses above) is validated by the shapely cross-check only",
     "pyquaternion `Quaternion.rotate` for a yaw-only unit quaternion = planar rotation by (c, s) (checked through the scores)",
     "np.argsort on 4 keys is stable (numpy uses insertion sort below 16 elements)",
     "sqrt is monotone: distances are modelled squared; `round(., 10)` of the plane distance and of the left/right cross "
@@ -534,6 +556,10 @@ def compare(case, out, resps):
                     return d
             if _mval(r["inter"]) != _mval(r["inter_swapped"]):
                 return f"{tag}: model clipper not symmetric {r['inter']} vs {r['inter_swapped']}"
+            # the symmetrised exact area `interSym` (for which the WHOLE area contract is a theorem) is the value the
+            # scores were compared with: I(P,Q) = I(Q,P) exactly, hence interSym = interArea on this pair
+            if "inter_sym" in r and _mval(r["inter_sym"]) != _mval(r["inter"]):
+                return f"{tag}: interSym {r['inter_sym']} != interArea {r['inter']}"
             if _pd_decided(r, sc):
                 d = _cmp_val(f"{tag}.plane_distance", sc["pd"], _mval(r["pd2"]), sqrt=True)
                 if d:
